@@ -1,0 +1,38 @@
+//go:build verif
+
+package type1
+
+import "io"
+
+// VerifEexecWriter is a verification hook (only built with the tag "verif").
+// It drives the unexported eexec stream writer: the writer is created on w,
+// the chunks are written one by one and the writer is closed.  The byte
+// counts returned by the Write calls are reported together with the first
+// error; after an error nothing more is done.
+func VerifEexecWriter(w io.Writer, chunks [][]byte) (ns []int, err error) {
+	ew, err := newEExecWriter(w)
+	if err != nil {
+		return nil, err
+	}
+	for _, c := range chunks {
+		n, err := ew.Write(c)
+		ns = append(ns, n)
+		if err != nil {
+			return ns, err
+		}
+	}
+	return ns, ew.Close()
+}
+
+// VerifHexWriter does the same for the unexported hexadecimal line writer.
+func VerifHexWriter(w io.Writer, chunks [][]byte) (ns []int, err error) {
+	hw := &hexWriter{w: w}
+	for _, c := range chunks {
+		n, err := hw.Write(c)
+		ns = append(ns, n)
+		if err != nil {
+			return ns, err
+		}
+	}
+	return ns, hw.Close()
+}
